@@ -46,7 +46,7 @@ impl Metablock {
         r is Ok ==> forall|i: int| 0 <= i < private_keys@.len() ==> signed_with(#[trigger] r->Ok_0.signatures@[i], *private_keys@[i], metadata),   // [C09,C05]
 //@after /let raw = metadata\.to_bytes\(\)\?;/
         let ghost raw0 = raw@;
-//@after /\.replace\("\\\\n", "\\n"\);/
+//@after /\.replace\("\\\\n", "\\n"\);/ optional
         proof { fact_replace_str_pattern(vstd::utf8::decode_utf8(raw0), "\\n", "\n"@); }
         assert(signed_msg(metadata) == Some(vstd::utf8::encode_utf8(metadata_string@)));
 //@loop 1 iter=it
@@ -129,7 +129,7 @@ impl MetablockBuilder {
 //@after /let raw = _self\.metadata\.to_bytes\(\)\?;/
         let ghost raw0 = raw@;
         proof { fact_keyid_key_model(); }
-//@after /\.replace\("\\\\n", "\\n"\);/
+//@after /\.replace\("\\\\n", "\\n"\);/ optional
         proof { fact_replace_str_pattern(vstd::utf8::decode_utf8(raw0), "\\n", "\n"@); }
         assert(signed_msg(_self.metadata) == Some(vstd::utf8::encode_utf8(metadata@)));
 //@loop 1 iter=it
